@@ -273,8 +273,12 @@ class YncaConnection:
     def close(self):
         # Disconnect callback is for unexpected disconnects
         # Don't need it to be called on planned `close()`
-        if self._protocol:
-            self._protocol._disconnect_callback = None
+        protocol = self._protocol
+        if protocol is None and self._readerthread:
+            # connect() is still in progress (e.g. close() from a callback on an early message)
+            protocol = self._readerthread.protocol
+        if protocol:
+            protocol._disconnect_callback = None
 
         if self._readerthread:
             if threading.current_thread() is self._readerthread:
